@@ -12,7 +12,7 @@
    A delivered result is (trial t, (run tag k, index i, result r, st_tuner_time ts)); the tag and
    index are ghost data naming the job run ([runs st'] = log of executed job runs: trial, start
    time = time of the start event, configuration, seed, resume level, reported results). *)
-From Verif Require Import model.Base model.Sim proofs.SimProofs proofs.SimDeliveryProofs.
+From Verif Require Import model.Base model.Sim proofs.SimProofs proofs.SimDeliveryProofs proofs.SimHeapProofs.
 From Coq Require Import Qminmax Sorted Permutation.
 Open Scope Q_scope.
 
@@ -168,6 +168,83 @@ Proof.
 Qed.
 Print Assumptions c10_timely.
 
+(* ---- resume level over repeated pause / resume ---------------------------------------------- *)
+(* After ANY successfully executed call history the level stored for a trial (which the next run
+   of the trial reads as its resume level, c10_run_start) is the level passed by the LATEST
+   pause_trial(trial, result) of the history — earlier pauses of the same trial, pauses of other
+   trials, pauses without result and all other calls do not matter. *)
+Theorem c10_resume_level :
+  forall S_ tbl draw t ops st',
+    exec S_ tbl draw init_state ops = Some st' ->
+    lookup t (paused_at st') = last_pause t ops None.
+Proof. intros S_ tbl draw t ops st' H. exact (paused_is_last_pause S_ tbl draw t ops init_state st' H). Qed.
+Print Assumptions c10_resume_level.
+
+(* ---- the monotonicity fix-up as a whole ------------------------------------------------------ *)
+(* Whatever the (rebased) time column x is — decreasing, constant, negative — the fix-up returns
+   e with the same levels and metrics, e_0 >= eps, e_{j+1} >= e_j + eps and e_j >= x_j. *)
+Theorem c10_repair_increasing :
+  forall S_ l l', repair S_ l = Ok l' ->
+    map res_level l' = map res_level l /\ map res_metrics l' = map res_metrics l /\
+    (forall a, nth_error l' 0 = Some a -> eps S_ <= res_elapsed a) /\
+    (forall j a b, nth_error l' j = Some a -> nth_error l' (S j) = Some b ->
+       res_elapsed a + eps S_ <= res_elapsed b) /\
+    (forall j r', nth_error l' j = Some r' -> exists r, nth_error l j = Some r /\ res_elapsed r <= res_elapsed r').
+Proof.
+  intros S_ l l' H. destruct (repair_spec S_ l l' H) as [_ HR].
+  destruct (repaired_fields S_ None l l' HR) as (A & B & _).
+  split; [exact A|]. split; [exact B|]. split; [exact (repaired_head S_ None l l' HR)|].
+  split; [exact (repaired_step S_ None l l' HR)|].
+  intros j r' Hj. destruct (repaired_nth S_ None l l' HR j r' Hj) as (r & Hr & _ & _ & Hle). exists r. split; assumption.
+Qed.
+Print Assumptions c10_repair_increasing.
+
+Definition ex_settings_r : settings :=
+  mkSet (1#20) (1#20) (1#20) (1#20) (1#20) (1#10) true None (1#100) (1#1000).
+Example c10_repair_example :
+  map (fun r => Qred (res_elapsed r))
+      (match repair ex_settings_r [mkRes 1 3 []; mkRes 2 1 []; mkRes 3 (-5) []; mkRes 4 (7#2) []] with
+       | Ok l => l | Err _ => [] end)
+  = [3; 301#100; 151#50; 7#2].
+Proof. vm_compute. reflexivity. Qed.
+
+(* ---- the event queue as heapq keeps it: a binary heap in an array --------------------------- *)
+(* model/Sim.v bh_push / bh_pop / bh_heapify are heapq's heappush / heappop / heapify on a list,
+   bhs_* are SimulatorState.push / remove_events (filter + heapify) / next_until on it; the driver
+   compares the ARRAY after every call with the real SimulatorState.event_heap.
+   Proved: the boolean heap check is sound and complete; the first entry of a heap is a minimum;
+   a heap and the sorted list holding the same events expose the same first event and are empty
+   together — so next_until, which looks at entry 0, takes the same decision and pops the same
+   event in both representations, and all theorems above (stated over the sorted list) apply.
+   PARTIAL: the full statement "for every sequence of push / next_until / remove_events the array is
+   a heap after every call (hence pops come in non-decreasing (time, insertion) order)" needs that
+   bh_push, bh_pop and bh_heapify preserve the heap condition; that is NOT proved here.  It is
+   checked at run time instead: [is_heap_b] (proved equivalent to the heap condition below) is
+   evaluated on the model's array and the independent checker tests the implementation's array
+   after every call of every generated sequence. *)
+Theorem c10_bheap_top_partial :
+  (forall a, is_heap_b a = true <-> IsHeap a) /\
+  (forall a, IsHeap a -> forall i, (i < length a)%nat -> key_le (nth 0 a hdummy) (nth i a hdummy)) /\
+  (forall a l, IsHeap a -> Permutation a l -> StronglySorted key_lt l ->
+     nth 0 a hdummy = hd hdummy l /\ (a = [] <-> l = [])).
+Proof.
+  split; [exact is_heap_b_spec|]. split; [exact heap_root_min | exact heap_top_is_sorted_head].
+Qed.
+Print Assumptions c10_bheap_top_partial.
+
+(* non-vacuity: pushes with ties, pops, a remove_events: the array is a heap after every step and
+   the pops come out in (time, insertion) order *)
+Example c10_bheap_example :
+  let s1 := bhs_push (bhs_push (bhs_push (bhs_push (bhs_push ([], 0%nat) 0 EvStart 5) 1 EvStart 3) 0 EvStart 3) 2 EvStart 1) 1 EvStart 4 in
+  let '(x1, s2) := bhs_next_until s1 2 in
+  let s3 := bhs_remove s2 1 in
+  let '(x2, s4) := bhs_next_until s3 10 in
+  let '(x3, s5) := bhs_next_until s4 10 in
+  is_heap_b (fst s1) = true /\ is_heap_b (fst s3) = true /\
+  map (fun x => match x with Some h => Some (h_time h, h_cnt h) | None => None end) [x1; x2; x3]
+  = [Some (1, 3%nat); Some (3, 2%nat); Some (5, 0%nat)] /\ fst s5 = [].
+Proof. vm_compute. repeat split. Qed.
+
 (* ---- the clock ----------------------------------------------------------------------------- *)
 (* Simulated time never runs backwards: over any operation sequence, from any state, the clock
    after a later call is >= the clock after an earlier call (and >= the initial clock). *)
@@ -271,7 +348,7 @@ Theorem c10_event_loop_total :
 Proof. exact process_now_enough. Qed.
 Print Assumptions c10_event_loop_total.
 
-(* ---- non-vacuity --------------------------------------------------------------------------- *)
+(* ---- non-vacuity (values, time stamps, resume level) --------------------------------------------------------------------------- *)
 (* one configuration, one seed, three levels with elapsed times 1, 2, 2 (flat step: repaired),
    default delays: start, fetch (level 1), pause at level 1, resume, fetch (levels 2 and 3 of the
    second run, elapsed 1 and 1.01 since the resume point) *)
@@ -292,3 +369,22 @@ Example c10_example :
   = [[]; [(1%nat, 1, [5], 11#10)]; []; []; [];
      [(2%nat, 1, [6], 1351#500); (3%nat, 101#100, [7], 339#125)]].
 Proof. vm_compute. reflexivity. Qed.
+
+(* two pauses of the same trial at levels 1 and 2: the stored level is the latest one, and the third
+   run reports level 3 only *)
+Definition ex_ops2 : list op :=
+  [OpStart (mkCfg 0 None) 0; OpFetch [0%nat] (3#2); OpPause 0 (Some 1%nat) 0; OpResume 0 None 0;
+   OpFetch [0%nat] (6#5); OpPause 0 (Some 2%nat) 0; OpResume 0 None 0; OpFetch [0%nat] 5].
+Example c10_resume_level_example :
+  (match exec ex_settings ex_table (fun _ => 0%nat) init_state ex_ops2 with
+   | Some st' => lookup 0 (paused_at st')
+   | None => None
+   end) = Some 2%nat /\
+  last_pause 0 ex_ops2 None = Some 2%nat /\
+  map (fun x => match x with
+                | Ok (_, OutFetch rs _) => map (fun d : delivered => let '(_, (_, _, r, _)) := d in res_level r) rs
+                | _ => []
+                end)
+      (run_ops ex_settings ex_table (fun _ => 0%nat) init_state ex_ops2)
+  = [[]; [1%nat]; []; []; [2%nat; 3%nat]; []; []; [3%nat]].
+Proof. vm_compute. repeat split. Qed.
